@@ -43,6 +43,12 @@ Theorem C05_permitting_commands : permitting_ok = true.
 Proof. exact permitting_ok_true. Qed.
 Print Assumptions C05_permitting_commands.
 
+(* ... and those flushes are unconditional: performed whenever control reaches the handler body (a MOVE that moves
+   nothing, a CHECK/NOOP/EXPUNGE with nothing to do still announce what is held back) *)
+Theorem C05_permitting_flushes_unconditional : guards_ok = true.
+Proof. exact guards_ok_true. Qed.
+Print Assumptions C05_permitting_flushes_unconditional.
+
 (* nothing is lost by a non-permitting pop: every responder is either handled now or kept *)
 Theorem C05_pop_partition : forall permit rs skip readd p q, pop_go permit skip readd rs = (p, q) ->
   forall r, In r rs <-> In r p \/ In r q.
